@@ -292,7 +292,7 @@ func ElementAtFunc(query *Query, current Map, functionOptions *FunctionOptions, 
 		return nil, err
 	}
 	index := int(*indexRaw)
-	if len(*slice) > index {
+	if index >= 0 && len(*slice) > index {
 		return (*slice)[index], nil
 	}
 	return nil, EXPECTATION_FAILED.Extend(fmt.Sprintf("index %d is out of range", index))
